@@ -146,3 +146,25 @@ From Yarl Require Import Generated.NetlocGen Proofs.GenSplitProofs.
 Theorem C07_source_split_netloc : forall n : str, gen_split_netloc n = split_netloc n.
 Proof. exact gen_split_netloc_ok. Qed.
 Print Assumptions C07_source_split_netloc.
+
+(** ... and the two plain constructors every modifier and build(encoded=True) end in:
+    from_parts_uncached stores its five arguments and an empty cache; build_pre_encoded_url
+    composes the authority exactly as the model's build does with encoded=True (authority wins,
+    else host with the default port of the scheme dropped and userinfo through make_netloc). *)
+From Yarl Require Import Proofs.GenBuildPreProofs.
+Theorem C07_source_from_parts_uncached : forall s n p q f : str,
+  same_outcome (gen_from_parts_uncached s n p q f) (Ok (from_parts s n p q f)).
+Proof. exact gen_from_parts_uncached_ok. Qed.
+Print Assumptions C07_source_from_parts_uncached.
+Theorem C07_source_build_pre_encoded_url : forall (O : oracles) (B : backend) (a : build_args),
+  b_encoded a = true ->
+  exists r : result (option N * str),
+    (match r with
+     | Err e => build O B a = Err e
+     | Ok (port, qs) =>
+         build O B a = Ok (build_pre_encoded B (b_scheme a) (b_authority a) (b_user a) (b_password a) (b_host a) port (b_path a) qs (b_fragment a))
+         /\ same_outcome (gen_build_pre_encoded_url B (b_scheme a) (b_authority a) (b_user a) (b_password a) (b_host a) port (b_path a) qs (b_fragment a))
+                         (build O B a)
+     end).
+Proof. exact build_encoded_via_gen. Qed.
+Print Assumptions C07_source_build_pre_encoded_url.
